@@ -752,6 +752,10 @@ func (m *connectUnaryMarshaler) Marshal(message any) *Error {
 	uncompressed := bytes.NewBuffer(data)
 	defer m.bufferPool.Put(uncompressed)
 	if len(data) < m.compressMinBytes || m.compressionPool == nil {
+		// The header map may be the caller's own, from a Request that was sent
+		// before: don't let it keep announcing the compression of an earlier,
+		// larger message.
+		m.header.Del(connectUnaryHeaderCompression)
 		return m.write(data)
 	}
 	compressed := m.bufferPool.Get()
